@@ -6,7 +6,7 @@ equal where the answer is unique, equally valid and optimal where it is not; a p
 on one encoding is a rejection.  The applicability matrix (algorithm x encoding) is evidence."""
 from props.algocommon import *
 
-ORACLES = ["C09", "C10", "C11", "C12", "C15", "C16", "C20"]
+ORACLES = ["C08", "C09", "C10", "C11", "C12", "C15", "C16", "C20"]
 
 def run(tier, seed):
     run = Run("C07", tier, seed)
